@@ -50,14 +50,14 @@ func Fail(format string, args ...any) {
 
 // Run is the context of one simulated run.
 type Run struct {
-	Prop  string
-	Seed  uint64
-	Index int
-	Tier  string
-	S     *choice.Stream
-	mask  map[string]bool
-	w     *worker
-	quiet bool // statistics are discarded (shrinking, counterfactual runs)
+	Prop     string
+	Seed     uint64
+	Index    int
+	Tier     string
+	S        *choice.Stream
+	mask     map[string]bool
+	w        *worker
+	quiet    bool // statistics are discarded (shrinking, counterfactual runs)
 	showOnly bool
 
 	log      []string
